@@ -294,3 +294,25 @@ def run(F, S, R, tier):
             else:
                 R.bad("mustcall/uncles/" + nm_.replace(" ", "-"), "prepare_uncles has %d `%s` tests, expected 2 (uncle, parent)" % (len(pu.calls_to(pat)), nm_), [pu.where()])
     R.guard("uncles", uncles)
+
+    # the epoch a fresh template is built for is computed from the snapshot's tip, every time: an epoch kept from the previous template is the
+    # epoch of another branch after a reorg across an epoch boundary (round-3 seed C13-seed6: wrong target / epoch / dao in the template)
+    def fresh_epoch():
+        import re
+        ub = [b for b in F.bodies_of_crate("ckb_tx_pool") if re.search(r"block_assembler::BlockAssembler::update_blank", b.path)]
+        sites = [(b, c) for b in ub for c in b.calls_to(r"BlockTemplateBuilder::new$")]
+        R.sites += len(sites)
+        if not sites:
+            R.bad("prov/template-epoch/anchor-lost", "BlockTemplateBuilder::new not found in update_blank", [])
+            return
+        for b, c in sites:
+            R.fn(b)
+            srcs = b.operand_sources(c.args[2]) if len(c.args) > 2 else b.operand_sources(c.args[-1])
+            stale = sorted(x for x in srcs if re.search(r"CurrentTemplate\.epoch$", x))
+            if stale:
+                R.bad("prov/template-epoch", "update_blank builds the template for an epoch that may come from the previous template (%s), not from next_epoch_ext of the new tip" % stale[0], [c.where()])
+            elif K.src_match(srcs, [r"call:.*Consensus::next_epoch_ext$"]):
+                R.ok("prov/template-epoch", "the template's epoch is next_epoch_ext of the snapshot's tip", [c.where()])
+            else:
+                R.bad("prov/template-epoch", "the template's epoch does not come from Consensus::next_epoch_ext", [c.where()])
+    R.guard("prov/template-epoch", fresh_epoch)
